@@ -4,8 +4,8 @@ import Dbus.Model.Bus.Match
   Executable model of bus/policy.c rule evaluation:
   `bus_client_policy_check_can_send`, `bus_client_policy_check_can_receive`,
   `bus_rules_check_can_own`, and the order in which `bus_policy_create_client_policy`
-  concatenates the contexts.  `bus_client_policy_optimize` is not modelled: it must not change any
-  decision, which the correspondence check observes.
+  concatenates the contexts, and `bus_client_policy_optimize` (the rule list a connection holds is the
+  optimized one, as in the daemon; `Proofs/PolicyOpt.lean` proves that this changes no decision).
 -/
 namespace Dbus.Model.Bus
 open Dbus Dbus.Spec Dbus.Model
@@ -182,6 +182,42 @@ def canOwn (rules : List PRule) (requested : Bytes) : Bool :=
     match r.kind with
     | .own n p => ownApplies n p requested
     | _ => false
+
+/-! ### `bus_client_policy_optimize` -/
+
+/-- rule types as `remove_rules_by_type_up_to` compares them -/
+def PRule.typeNo (r : PRule) : Nat :=
+  match r.kind with
+  | .send _ => 0
+  | .receive _ => 1
+  | .own _ _ => 2
+  | .other => 3
+
+/-- "this rule decides every message / name of its type": the test `bus_client_policy_optimize` applies before it drops the preceding
+    rules of the same type (as repaired by F17: the modifiers must not let the rule skip anything either) -/
+def PRule.catchAll (maxFdsDefault : Nat) (r : PRule) : Bool :=
+  match r.kind with
+  | .send m =>
+    m.mtype == 0 && m.path.isNone && m.iface.isNone && m.member.isNone && m.error.isNone && m.peer.isNone &&
+    m.broadcast == .any && m.minFds == 0 && m.maxFds == maxFdsDefault &&
+    (if r.allow then (!m.requestedReply || m.eavesdrop) else m.requestedReply)
+  | .receive m =>
+    m.mtype == 0 && m.path.isNone && m.iface.isNone && m.member.isNone && m.error.isNone && m.peer.isNone &&
+    m.minFds == 0 && m.maxFds == maxFdsDefault &&
+    (if r.allow then m.eavesdrop else (!m.eavesdrop && m.requestedReply))
+  | .own n _ => n.isNone
+  | .other => false
+
+/-- one turn of the loop: a catch-all rule removes the rules of its type that precede it -/
+def optimizeStep (maxFdsDefault : Nat) (acc : List PRule) (r : PRule) : List PRule :=
+  (if r.catchAll maxFdsDefault then acc.filter (fun s => s.typeNo != r.typeNo) else acc) ++ [r]
+
+def optimize (maxFdsDefault : Nat) (rules : List PRule) : List PRule := rules.foldl (optimizeStep maxFdsDefault) []
+
+
+/-- what `bus_policy_create_client_policy` hands a connection: the concatenated contexts, optimized -/
+def Policy.clientPolicy (p : Policy) (maxFdsDefault : Nat) (uid : Nat) (gids : List Nat) (atConsole : Bool) : List PRule :=
+  optimize maxFdsDefault (p.clientRules uid gids atConsole)
 
 /-! ### bus/config-parser.c `append_rule_from_element`: attributes → rule -/
 
